@@ -83,6 +83,46 @@ mod verif_standins {
         }
     }
 
+    /// C14: a closing message never shows the sigma1 the merchant put into the closing signature it issued (the customer
+    /// re-randomises before closing), at every stage
+    #[test]
+    fn standin_close_rerandomized() {
+        let mut rng = R::seed_from_u64(1);
+        let m = merchant::Config::new(&mut rng);
+        let cfg = m.to_customer_config();
+        let mut crng = R::seed_from_u64(0xc14);
+        let mut mrng = R::seed_from_u64(0xabd);
+        let cid = ChannelId::new(MerchantRandomness::new(&mut mrng), CustomerRandomness::new(&mut crng), m.signing_keypair().public_key(), b"m", b"c");
+        let ctx = Context::new(b"standin c14");
+        let (cb, mb) = (CustomerBalance::try_new(100).unwrap(), MerchantBalance::try_new(5).unwrap());
+        let issued = |sig: &crate::ClosingSignature| enc(sig)[..48].to_vec();
+        let shown = |msg: &ClosingMessage| enc(msg.closing_signature())[..48].to_vec();
+        let run = |stage: usize, crng: &mut R, mrng: &mut R| -> (Vec<Vec<u8>>, Vec<u8>) {
+            let mut seen = Vec::new();
+            let (requested, proof) = Requested::new(crng, &cfg, cid, mb, cb, &ctx);
+            let (closing, blinded_state) = m.initialize(mrng, &cid, cb, mb, proof, &ctx).unwrap();
+            seen.push(issued(&closing));
+            let inactive = requested.complete(closing, &cfg).ok().unwrap();
+            if stage == 1 { return (seen, shown(&inactive.close(crng))); }
+            let ready = inactive.activate(m.activate(mrng, blinded_state), &cfg).ok().unwrap();
+            if stage == 2 { return (seen, shown(&ready.close(crng))); }
+            let amount = PaymentAmount::pay_merchant(7).unwrap();
+            let (started, sm) = ready.start(crng, amount, &ctx, &cfg).ok().unwrap();
+            let (unrevoked, closing2) = m.allow_payment(mrng, amount, &sm.nonce, sm.pay_proof, &ctx).unwrap();
+            seen.push(issued(&closing2));
+            if stage == 3 { return (seen, shown(&started.close(crng))); }
+            let (locked, lm) = started.lock(closing2, &cfg).ok().unwrap();
+            if stage == 4 { return (seen, shown(&locked.close(crng))); }
+            let token = unrevoked.complete_payment(mrng, &lm.revocation_pair, &lm.revocation_lock_blinding_factor).ok().unwrap();
+            let ready = locked.unlock(token, &cfg).ok().unwrap();
+            (seen, shown(&ready.close(crng)))
+        };
+        for stage in 1..=5 {
+            let (issued_sigma1s, shown_sigma1) = run(stage, &mut crng, &mut mrng);
+            assert!(!issued_sigma1s.contains(&shown_sigma1), "STANDIN close (stage {}): the closing message shows a sigma1 that the merchant issued earlier - the close is linkable to that session", stage);
+        }
+    }
+
     #[test]
     fn standin_restore_continues() {
         let mut rng = R::seed_from_u64(1);
